@@ -13,7 +13,7 @@ open Rbacx.Reloader
 /-! ### numbers: integers of microseconds -/
 
 /-- `N` reads the source's float arithmetic as EXACT arithmetic on integers of microseconds: `+`, `min`, `max`, `<` are the integer
-    ones, the literal `0.2` is 200 000 µs, multiplying by the literal `2.0` doubles.  Nothing is assumed about any other product:
+    ones, the literals `0.2` and `0.0` are 200 000 µs and 0, multiplying by the literal `2.0` doubles.  Nothing is assumed about any other product:
     `self._backoff * self.jitter_ratio * random.uniform(-1.0, 1.0)` is whatever `N.mul` says — the model's `jit` parameter. -/
 structure UsReading (N : Num Int) : Prop where
   add : ∀ a b, N.add a b = a + b
@@ -21,6 +21,7 @@ structure UsReading (N : Num Int) : Prop where
   max : ∀ a b, N.max a b = Max.max a b
   lt : ∀ a b, N.lt a b = decide (a < b)
   lit_floor : N.lit 2 1 = floorUs
+  lit_zero : N.lit 0 1 = 0
   double : ∀ a, N.mul a (N.lit 20 1) = a * 2
 
 /-- fixed-point arithmetic in microseconds: a witness that `UsReading` is satisfiable (products rounded down to whole µs) -/
@@ -34,6 +35,7 @@ theorem usFixed_reading : UsReading usFixed where
   max := fun _ _ => rfl
   lt := fun _ _ => rfl
   lit_floor := by decide
+  lit_zero := by decide
   double := fun a => by
     show a * ((20 : Int) * 1000000 / (10 : Int) ^ 1) / 1000000 = a * 2
     have : ((20 : Int) * 1000000 / (10 : Int) ^ 1) = 2000000 := by decide
@@ -82,6 +84,11 @@ theorem eq_tagVal (a b : Option Tag) : eq (tagVal a) (tagVal b) = (a == b) := by
 theorem isNotNone_tagVal (a : Option Tag) : isNotNone (tagVal a) = a.isSome := by
   cases a <;> rfl
 
+/-- what the constructor saw of `source.etag()`: nothing when `initial_load` is on or the source has no sync `etag`
+    (`etag_attr is not None and not inspect.iscoroutinefunction(etag_attr)` is false), else the outcome of the sync call -/
+def primeOf (initialLoad syncEtag : Bool) (eo : Except String PyVal) : Prime :=
+  if initialLoad then .skipped else if syncEtag then .called (etagRes eo) else .skipped
+
 /-! ### the collaborator calls the model predicts -/
 
 def cEtag : Call Doc := ⟨"self.source.etag", []⟩
@@ -92,5 +99,34 @@ def cSet (d : Doc) : Call Doc := ⟨"self.guard.set_policy", [.opaque d]⟩
 def callsOf (force : Bool) (now : Int) (e : Reloader.Res EtagObs) (l : Reloader.Res Doc) (s : RState) : List (Call Doc) :=
   (if callsEtag force now s then [cEtag] else []) ++
   (if callsLoad force now e s then cLoad :: (match l with | .ok d => [cSet d] | .raise _ => []) else [])
+
+/-- the calls of a whole history of non-overlapping checks, as the model predicts them -/
+def callsAlong (cfg : Cfg) : HState → List Event → List (Call Doc)
+  | _, [] => []
+  | h, ev :: evs =>
+    (match ev with
+     | .advance _ => []
+     | .check force _ e l => callsOf force h.now e l h.rs) ++ callsAlong cfg (stepEvent cfg h ev).1 evs
+
+/-- the document handed to `set_policy`, for a `set_policy` call -/
+def setArg (c : Call Doc) : Option Doc :=
+  if c.callee = "self.guard.set_policy" then (match c.args with | [.opaque d] => some d | _ => none) else none
+
+theorem setArg_callsOf (force : Bool) (now : Int) (e : Reloader.Res EtagObs) (l : Reloader.Res Doc) (s : RState) (jit : Int → Int) :
+    (callsOf force now e l s).filterMap setArg = (loadedBy ⟨now, s⟩ (.check force jit e l)).toList := by
+  simp only [callsOf, loadedBy]
+  cases hE : callsEtag force now s <;> cases hL : callsLoad force now e s <;> cases l <;> simp [setArg, cEtag, cLoad, cSet]
+
+/-- the documents handed to `set_policy` along a history are exactly the documents its successful `load()`s returned, in order -/
+theorem setArg_callsAlong (cfg : Cfg) (evs : List Event) : ∀ h : HState,
+    (callsAlong cfg h evs).filterMap setArg = loadedDocs cfg h evs := by
+  induction evs with
+  | nil => intro h; rfl
+  | cons ev evs ih =>
+    intro h
+    simp only [callsAlong, loadedDocs, List.filterMap_append, ih]
+    cases ev with
+    | advance dt => simp [loadedBy]
+    | check force jit e l => rw [setArg_callsOf force h.now e l h.rs jit]
 
 end Rbacx.PyR
